@@ -345,24 +345,21 @@ func c12Evaluate(c *vlib.Ctx, pkg string, mons []*asm.StreamMon, nconn int, bidi
 		}
 	}
 	c.Count("records_delivered_"+pkg, len(seen))
-	// single live entry per key: lifetimes [first callback, completion] of the kept streams of one key must not overlap
-	overlaps := 0
+	// single live entry per key, decided by porcupine over the callback intervals of all kept streams of that key
+	var evs []asm.LiveEv
 	for k, ms := range byKey {
-		for i := 0; i < len(ms); i++ {
-			for j := 0; j < len(ms); j++ {
-				a, b := ms[i], ms[j]
-				if i == j || a.CompleteT.IsZero() || b.FirstT.IsZero() {
-					continue
-				}
-				if a.FirstT.Before(b.FirstT) && a.CompleteT.After(b.FirstT) {
-					overlaps++
-					if overlaps == 1 {
-						c.Violation("two-live-streams-for-one-connection:"+pkg, fmt.Sprintf("conn %d dir %d: stream %d was handed data before stream %d had completed (two live entries for one key)", k[0], k[1], b.ID, a.ID), nil)
-					}
-				}
+		for _, m := range ms {
+			for _, e := range m.Evs {
+				evs = append(evs, asm.LiveEv{Key: k, Stream: m.ID + 1, Kind: e.Kind, T0: e.T0, T1: e.T1})
 			}
 		}
 	}
+	if key, desc := asm.CheckSingleLiveStream(evs, 60*time.Second); key == "unknown" {
+		c.Inconclusive("single-live-entry check: " + desc)
+	} else if key != "" {
+		c.Violation(key+":"+pkg, desc, nil)
+	}
+	c.Count("callback_events_checked_by_porcupine", len(evs))
 	c.Count("streams_kept_"+pkg, kept)
 	c.Count("streams_discarded_by_double_check_"+pkg, discarded)
 }
